@@ -1,24 +1,69 @@
 #!/usr/bin/env python3
 """Run the repository's pinned baseline (guard OFF) and compare with BASELINE.json stable_pass.
-usage: run_baseline.py [pytest args...]   (default: whole suite)"""
-import json, os, subprocess, sys, tempfile, xml.etree.ElementTree as ET
+
+usage: run_baseline.py [--stable-only] [path prefixes...]
+  default       run pytest on the given paths (whole suite if none) and report stable tests that no longer pass
+  --stable-only run exactly the stable tests (optionally restricted to the given path prefixes); the always-fail
+                part of the suite contains tests that hang until their 900 s timeout, this mode avoids them
+"""
+import json
+import os
+import subprocess
+import sys
+import tempfile
+import xml.etree.ElementTree as ET
+
 b = json.load(open('/root/.vp/BASELINE.json'))
 stable = set(b['stable_pass'])
-out = tempfile.mktemp(suffix='.xml')
-env = dict(os.environ); env.pop('AGILERL_VERIF', None)
+env = dict(os.environ)
+env.pop('AGILERL_VERIF', None)
 args = sys.argv[1:]
-cmd = ['/venv/bin/python', '-m', 'pytest', '-q', '-p', 'no:cacheprovider', '--timeout=900', '--continue-on-collection-errors', f'--junitxml={out}'] + args
-subprocess.run(cmd, cwd='/repo', env=env, stdout=subprocess.DEVNULL, stderr=subprocess.DEVNULL)
-passed = set(); seen = set()
-for tc in ET.parse(out).getroot().iter('testcase'):
-    name = f"{tc.get('classname')}::{tc.get('name')}"
-    seen.add(name)
-    if not any(ch.tag in ('failure', 'error', 'skipped') for ch in tc):
-        passed.add(name)
-os.unlink(out)
-scope = stable if not args else {s for s in stable if s in seen}
+stable_only = "--stable-only" in args
+if stable_only:
+    args.remove("--stable-only")
+
+
+def node_id(s):
+    mod, name = s.split("::", 1)
+    parts = mod.split(".")
+    cls = []
+    while parts and parts[-1][:1].isupper():
+        cls.insert(0, parts.pop())
+    return "/".join(parts) + ".py::" + "::".join(cls + [name])
+
+
+def run(pytest_args):
+    out = tempfile.mktemp(suffix='.xml')
+    cmd = ['/venv/bin/python', '-m', 'pytest', '-q', '-p', 'no:cacheprovider', '--timeout=900',
+           '--continue-on-collection-errors', f'--junitxml={out}'] + pytest_args
+    r = subprocess.run(cmd, cwd="/repo", env=env, capture_output=True, text=True)
+    if not os.path.exists(out):
+        print(r.stdout[-2000:], r.stderr[-2000:])
+        sys.exit(2)
+    passed, seen = set(), set()
+    for tc in ET.parse(out).getroot().iter('testcase'):
+        name = f"{tc.get('classname')}::{tc.get('name')}"
+        seen.add(name)
+        if not any(ch.tag in ('failure', 'error', 'skipped') for ch in tc):
+            passed.add(name)
+    os.unlink(out)
+    return passed, seen
+
+
+if stable_only:
+    scope = {s for s in stable if not args or any(node_id(s).startswith(a) for a in args)}
+    by_file = {}
+    for s in scope:
+        by_file.setdefault(node_id(s).split("::")[0], []).append(node_id(s))
+    passed = set()
+    for f, ids in sorted(by_file.items()):
+        p, _ = run(sorted(ids))
+        passed |= p
+else:
+    passed, seen = run(args)
+    scope = stable if not args else {s for s in stable if s in seen}
 missing = sorted(scope - passed)
 print(f"stable in scope: {len(scope)}  passed: {len(scope & passed)}  missing: {len(missing)}")
-for m in missing[:40]:
+for m in missing[:60]:
     print("  MISSING", m)
 sys.exit(1 if missing else 0)
